@@ -116,6 +116,14 @@ def worker(args):
             elif kind == "solver":
                 fen, _, nn = it.partition(" | ")
                 depths = [rnd.randint(1, 10)]
+            elif kind == "forced":
+                # a check with exactly one legal reply: searched before the check and (half of the time) after it
+                parts = [x.strip() for x in it.split("|")]
+                fen = parts[0]
+                if rnd.random() < .5:
+                    ok, fen = ref.apply(fen, [parts[1]])
+                    assert ok, it
+                depths = rnd.sample(range(1, 9), 2)
             else:
                 parts = [x.strip() for x in it.split("|")]
                 fen, mates = parts[0], parts[1].split()
@@ -175,10 +183,8 @@ def run(c):
     core.ensure_nets(NETS)
     rnd = random.Random(c.seed)
     classes = ["KQK", "KRK", "KKQ", "KKR", "KQKR", "KBNK"] + ([] if quick else ["KRKN", "KQKQ", "KBBK", "KRKB", "KKRR", "KQKN", "KRRK", "KKBN"])
-    st, sres = c12.sweep(c, classes)
-    if any(r.viols or r.reports or r.rc != 0 for r in sres):
-        c.viol = []
-        raise core.HarnessError("tablebase oracle failed its own Bellman check; see ./check C12")
+    c13.ORACLE_TAG = "C04"
+    st = c12.solve(c, classes, "C04")
     c.samples = []
     ref = uci.RefCli.get()
     n_tb = int((320 if quick else 20000) * c.scale)
@@ -191,6 +197,11 @@ def run(c):
             tb_roots.append(f + " 0 1")
     solver = gen("mates", c.seed, n_solver, 3)
     m1 = gen("mate1", c.seed, n_m1)
+    forced = gen("onlyreply", c.seed, int((400 if quick else 12000) * c.scale))
+    reply_kinds = {}
+    for l in forced:
+        t = l.split("|")[3].strip()
+        reply_kinds[t] = reply_kinds.get(t, 0) + 1
     kinds_seen = {}
     for l in m1:
         for t in l.split("|")[2].split():
@@ -204,6 +215,8 @@ def run(c):
         jobs.append((c.seed * 100000 + 30000 + i, "solver", ch, classes))
     for i, ch in enumerate(chunks(m1, 25)):
         jobs.append((c.seed * 100000 + 60000 + i, "mate1", ch, classes))
+    for i, ch in enumerate(chunks(forced, 20)):
+        jobs.append((c.seed * 100000 + 80000 + i, "forced", ch, classes))
     tot = dict(searches=0, claims=0, unchecked=0, m1=0, slow=0)
     fens = set()
     with concurrent.futures.ThreadPoolExecutor(max_workers=core.NCPU) as ex:
@@ -217,16 +230,20 @@ def run(c):
                 c.sample(s)
     c.evaluations = tot["searches"]
     c.distinct = len(fens)
-    c.rule = ("one case = one depth-limited search (depth 1..14) at full strength on (a) a random legal placement of a <=4-men pawnless class (oracle: DTM dump verified by the "
-              "Bellman sweep in this run), (b) an attack-biased position where refchess' exhaustive solver found a forced mate in <=3, (c) a position with a mate in one "
-              "(25% of them searched at every depth 1..14); Hash in {1,16}, Threads in {1,2,4}, UseNullMove on/off, 3 networks; every positive 'mate N' line that is not an "
+    c.rule = ("one case = one depth-limited search (depth 1..14) at full strength on (a) a random legal placement of a <=4-men pawnless class (oracle: independent retrograde solution of the class, checked by the "
+              "forward Bellman equations in this run), (b) an attack-biased position where refchess' exhaustive solver found a forced mate in <=3, (c) a position with a mate in one "
+              "(25% of them searched at every depth 1..14), (d) a position with a check that leaves exactly one legal reply - half of them built so that the reply is a pawn "
+              "double step onto the checking line - searched before or after the check (a generator that loses the reply turns the check into a false mate); Hash in {1,16}, Threads in {1,2,4}, UseNullMove on/off, 3 networks; every positive 'mate N' line that is not an "
               "upper bound, the final best move and every final 'mate -N' of a completed search are judged. distinct_nontrivial = distinct root positions searched")
     c.extra.update(mate_claims_judged=tot["claims"] - tot["unchecked"], mate_claims_unchecked_no_oracle=tot["unchecked"],
-                   mate_in_one_searches=tot["m1"], slow_searches_stopped=tot["slow"], mate_in_one_kinds=kinds_seen, tb_roots=len(tb_roots), solver_roots=len(solver), exhaustive=False)
-    c.assumptions += ["DTM dumps verified in this run; refchess solver exhaustive up to 3 moves (4 with a node cap, else counted as unchecked)",
+                   mate_in_one_searches=tot["m1"], slow_searches_stopped=tot["slow"], mate_in_one_kinds=kinds_seen, only_reply_roots=len(forced), only_reply_kinds=reply_kinds, tb_roots=len(tb_roots), solver_roots=len(solver), exhaustive=False)
+    c.assumptions += ["DTM oracle: independent retrograde solution (no engine code), self-checked in this run; refchess solver exhaustive up to 3 moves (4 with a node cap, else counted as unchecked)",
                       "draw claims (repetition/50 moves) are ignored by the solver: roots have half-move clock 0 and no history"]
     if tot["claims"] - tot["unchecked"] == 0:
         raise core.HarnessError("no mate claim judged")
+    for k in ("block-pawn2", "block-piece", "capture", "king-move"):
+        if reply_kinds.get(k, 0) == 0:
+            raise core.HarnessError("only-reply kind %s never generated" % k)
     for k in ("promo", "double", "discovered"):
         if kinds_seen.get(k, 0) == 0 and not quick:
             raise core.HarnessError("mate-in-one kind %s never generated" % k)
